@@ -213,6 +213,32 @@ func (g *srvGen) variant(r2 *rand.Rand) int {
 		for a := c.rangeB; a <= c.rangeE; a++ {
 			g.pool = append(g.pool, a)
 		}
+	case 4, 5:
+		// the server's own address inside the dynamic range (either end or the middle) instead of below it; now and then the range
+		// is every host address of the network
+		c := &g.cfg
+		if c.hasRange {
+			self := []uint32{c.rangeB, c.rangeE, (c.rangeB + c.rangeE) / 2}[r2.Intn(3)]
+			free := self != c.netU && self != c.netU+^c.maskU
+			for _, st := range c.statics {
+				if st[1].(uint32) == self {
+					free = false
+				}
+			}
+			if free {
+				c.selfIP = self
+				if r2.Intn(2) == 0 {
+					c.router = ipStr(self)
+				}
+				if r2.Intn(3) == 0 && ^c.maskU <= 0x1ff {
+					c.rangeB, c.rangeE = c.netU+1, c.netU+^c.maskU-1
+					g.pool = nil
+					for a := c.rangeB; a <= c.rangeE; a++ {
+						g.pool = append(g.pool, a)
+					}
+				}
+			}
+		}
 	}
 	// the lease duration setting at its lower end, with a fraction of a second, long, and around 2^31 / at 2^32-1 seconds
 	// (option 51 is an unsigned 32-bit count of seconds; the address has to stay reserved for all of it)
